@@ -14,6 +14,7 @@ import DdnnfVerif.Proofs.Lex
 import DdnnfVerif.Proofs.LoadAll
 import DdnnfVerif.Proofs.LoadOK3
 import DdnnfVerif.Proofs.Flatten
+import DdnnfVerif.Proofs.EndToEnd
 namespace Ddnnf.C01
 
 /-- The reported count (`Ddnnf::rc()` = count of the last node) is the number of assignments to
@@ -221,5 +222,37 @@ theorem c2d_count_is_number_of_models_of_the_file (lines : List (List Char)) (n 
   refine ⟨flatten_WF file n h, fun σ => flatten_eval file h.topo h.nonempty σ, ?_⟩
   rw [flatten_count file h.topo h.nonempty]
   exact count_is_model_count file n h
+
+/-! ### end to end for d4 input: text → loader → query, stated over the denotation of the text
+
+`D4.textCount lines total A` is the number of assignments to 1..n under which the *text* is true
+(`D4.evalB` on the graph phase 1 reads from it) and every literal of `A` holds.  For every d4 text that
+passes the conventions check — no hypothesis about the node array, no per-input structural check — the
+answers of the loaded model are functions of the text: -/
+
+/-- total count (C01), count under assumptions (C02), satisfiability (C03) and the per-feature table (C04) -/
+theorem d4_end_to_end_counts (lines : List D4.Line) (total : Nat)
+    (h : D4.conventions2B lines total = true) :
+    count (D4.load lines total).2.1 (rootIx (D4.load lines total).2.1) = D4.textCount lines total [] ∧
+    (∀ A, InRange A (D4.load lines total).1 →
+      execQuery (D4.load lines total).2.1 (D4.load lines total).1 A = D4.textCount lines total A) ∧
+    (∀ A, InRange A (D4.load lines total).1 →
+      satQuery (D4.load lines total).2.1 (D4.load lines total).1 A =
+        decide (0 < D4.textCount lines total A)) ∧
+    (∀ k, k < (D4.load lines total).1 →
+      (cardPD (D4.load lines total).2.1 (D4.load lines total).1).getD k 0 =
+        D4.textCount lines total [((k : Int) + 1)]) :=
+  ⟨D4.loaded_count lines total h, D4.loaded_execQuery lines total h, D4.loaded_satQuery lines total h,
+    D4.loaded_feature_rows lines total h⟩
+
+/-- core / dead literals under assumptions (C05): literal l is reported exactly when adding it to the
+in-range assumption list leaves the number of models of the text unchanged -/
+theorem d4_end_to_end_core (lines : List D4.Line) (total : Nat)
+    (h : D4.conventions2B lines total = true) (A : List Int)
+    (hA : InRange A (D4.load lines total).1) (l : Int) :
+    l ∈ coreDeadA (D4.load lines total).2.1 (D4.load lines total).1 A ↔
+      (l ≠ 0 ∧ l.natAbs ≤ (D4.load lines total).1 ∧
+        D4.textCount lines total (A ++ [l]) = D4.textCount lines total A) :=
+  D4.loaded_core_any lines total h A hA l
 
 end Ddnnf.C01
